@@ -1969,3 +1969,132 @@ func init() {
 	reg("C09", ruleModelDecoderRunsToTheEnd)
 	reg("C13", ruleModelDecoderRunsToTheEnd)
 }
+
+func init() {
+	// cross-registrations after the tenth round: the clause was decided, but not under the property the change was written for
+	reg("C05", rulePrunes(schemaFiles, "V5", 2))
+	reg("C06", ruleAllModelsValidated)
+	reg("C08", ruleVisitorCoverage("VisitorWithContext.VisitChildren", "V1", "V2", 30), ruleVisitorCoverage("defaultRewriteImpl", "V3", "V4", 30))
+	reg("C04", ruleVisitorCoverage("defaultRewriteImpl", "V3", "V4", 30))
+	reg("C15", ruleVisitorCoverage("defaultRewriteImpl", "V3", "V4", 30))
+}
+
+// ---------------------------------------------------------------------------------------------------------------
+// O4: an emitted C++ `to_json` that ADDS members to `j` (push_back / operator[]) under emitted conditions first gives
+// `j` its container kind unconditionally; otherwise a value whose conditions are all false is written as `null`.
+// ---------------------------------------------------------------------------------------------------------------
+func ruleEmittedToJsonStartsFromAContainer(c *core.Ctx) {
+	const rule = "O4"
+	c.Rule(rule, "cpp/ndjson: in a printed `to_json(ordered_json& j, …)` that adds members to `j` (`j.push_back`, `j[…] =`), a printed `j = …;` at brace depth 0 of the function precedes the first addition (a record whose optional fields are all empty is `{}`, not `null`)", 1)
+	p := c.Pkg("internal/cpp/ndjson")
+	if p == nil {
+		c.Undecided(rule, "anchor/internal/cpp/ndjson", 0, "package not found")
+		return
+	}
+	info := p.TypesInfo
+	n := 0
+	for _, d := range c.AllDecls() {
+		if c.DeclPkg(d) != p || d.Body == nil || c.IsTestFile(d.Pos()) {
+			continue
+		}
+		var walkList func(list []ast.Stmt)
+		walkList = func(list []ast.Stmt) {
+			for i := 0; i+1 < len(list); i++ {
+				es, ok := list[i].(*ast.ExprStmt)
+				if !ok {
+					continue
+				}
+				hdr := ""
+				if ce, ok := es.X.(*ast.CallExpr); ok {
+					for _, a := range ce.Args {
+						if tv, ok := info.Types[a]; ok && tv.Value != nil && tv.Value.Kind() == constant.String {
+							hdr = constant.StringVal(tv.Value)
+						}
+					}
+				}
+				if !strings.Contains(hdr, "to_json(ordered_json& j") || !strings.HasSuffix(strings.TrimSpace(hdr), "{") {
+					continue
+				}
+				es2, ok := list[i+1].(*ast.ExprStmt)
+				if !ok {
+					continue
+				}
+				ind, ok := es2.X.(*ast.CallExpr)
+				if !ok || !strings.HasSuffix(types.ExprString(ind.Fun), "Indented") || len(ind.Args) != 1 {
+					continue
+				}
+				fl, ok := ast.Unparen(ind.Args[0]).(*ast.FuncLit)
+				if !ok {
+					continue
+				}
+				// the templates of the body in source order, with the brace depth of the emitted text
+				depth, initialised := 0, false
+				var firstAdd token.Pos
+				ast.Inspect(fl.Body, func(m ast.Node) bool {
+					bl, ok := m.(*ast.BasicLit)
+					if !ok || bl.Kind != token.STRING {
+						return true
+					}
+					tv, ok := info.Types[bl]
+					if !ok || tv.Value == nil {
+						return true
+					}
+					t := constant.StringVal(tv.Value)
+					adds := strings.Contains(t, "j.push_back(") || strings.Contains(t, "j[") || strings.Contains(t, "j.emplace")
+					if adds && !initialised && firstAdd == token.NoPos {
+						firstAdd = bl.Pos()
+					}
+					if depth == 0 && strings.HasPrefix(strings.TrimSpace(t), "j = ") && firstAdd == token.NoPos {
+						initialised = true
+					}
+					depth += strings.Count(t, "{") - strings.Count(t, "}")
+					return true
+				})
+				hasAdds := false
+				ast.Inspect(fl.Body, func(m ast.Node) bool {
+					if bl, ok := m.(*ast.BasicLit); ok && bl.Kind == token.STRING {
+						if tv, ok := info.Types[bl]; ok && tv.Value != nil {
+							t := constant.StringVal(tv.Value)
+							if strings.Contains(t, "j.push_back(") || strings.Contains(t, "j[") || strings.Contains(t, "j.emplace") {
+								hasAdds = true
+							}
+						}
+					}
+					return true
+				})
+				if !hasAdds {
+					continue
+				}
+				n++
+				at := fl.Pos()
+				if firstAdd != token.NoPos {
+					at = firstAdd
+				}
+				c.Check(firstAdd == token.NoPos, rule, c.FuncName(d)+"/to_json", at, "`j = …;` is printed at depth 0 before the first addition",
+					"members are added to `j` under printed conditions and nothing gives `j` its container kind first: a record whose optional fields are all empty is written as `null` instead of `{}`, and read back as an absent value")
+			}
+			for _, s := range list {
+				ast.Inspect(s, func(m ast.Node) bool {
+					switch x := m.(type) {
+					case *ast.BlockStmt:
+						walkList(x.List)
+						return false
+					case *ast.CaseClause:
+						walkList(x.Body)
+						return false
+					}
+					return true
+				})
+			}
+		}
+		walkList(d.Body.List)
+	}
+	if n == 0 {
+		c.Undecided(rule, "anchor/printed to_json with additions", 0, "none found")
+	}
+}
+
+func init() {
+	reg("C02", ruleEmittedToJsonStartsFromAContainer)
+	reg("C03", ruleEmittedToJsonStartsFromAContainer)
+}
